@@ -12,6 +12,10 @@ Pipeline (DESIGN.md 2.2 / 7-C10, decisions in notes of tools/dl_run.py):
            extracted model run the same generated histories; after EVERY command the result, the hook events (lemmas,
            conflicts, clauses) and the full private state (matrices, predecessors, dist_constr, undo layers, assignments,
            queue, trail) are compared literally.
+  guard    the decidable test idl_gp of the guarded-network theorems (C08_pop_after_assume_restores_sat_idl_guarded,
+           C07_idl_network_soundness_guarded; smt/DlGuard.v) is evaluated by the extracted oracle before EVERY theory
+           propagation of every differential IDL history; a failure is reported as `dl:guard-failed` (faithfulness of the
+           guarded theory is a run-time obligation; evidence: campaign.guard_evaluations / guard_failures).
   judge    tools/dl_judge.py, independent of the model: Floyd-Warshall over the assigned constraints, predecessor
            consistency, validity of every lemma / conflict (negative cycle among the negated literals), propagation
            completeness; it also judges histories driven through the REAL sat_core (conflict analysis, backjumping, learnt
